@@ -254,7 +254,8 @@ MANIFEST = {"C08": ("model_checking", "5.C08",
                     "Close/GracefulClose injected at every position of a connection history (0..15/23 pump steps) from an API goroutine, from inside each "
                     "of the three callbacks, twice concurrently and repeatedly, with a loop task blocked in a socket write, slow handlers, blocked "
                     "Dial/AwaitConnect/Read/Write callers, Restart and not-yet-gathered agents; every call start/return and notification is an event judged by "
-                    "specs/close/CloseMon.tla in TLC; the synctest bubble's deadlock/leak verdict is the watchdog; AgentClose.tla model-checks the close protocol.",
+                    "specs/close/CloseMon.tla in TLC; the synctest bubble's deadlock/leak verdict is the watchdog; AgentClose.tla model-checks the close protocol and the same event log is "
+                    "validated against it (AgentCloseTrace.tla, internal steps placed by TLC).",
                     "Trusted base: TLC, the Go driver harness/close_test.go, testing/synctest (virtual time, durable-blocking detection). "
                     "Verdicts are TLA+ predicates over events recorded from the real agent.",
                     "TLA+ monitor evaluated by TLC on event traces of the real agent closed at every point; TLC model check of the close protocol")}
